@@ -187,13 +187,11 @@ func (h *svcHarness) judgeSafety(pre *snapshot, local []uint64, tb time.Time, ev
 			h.nontrivial = true
 		}
 	}
-	sawPrune := false
 	for i := range evs {
 		e := &evs[i]
 		t1 := at(e.T1)
 		switch e.Kind {
 		case "prune":
-			sawPrune = true
 			r.Count("svc_prune_calls", 1)
 			if e.Injected != "" {
 				r.Count("svc_prune_calls_injected_error", 1)
@@ -270,7 +268,6 @@ func (h *svcHarness) judgeSafety(pre *snapshot, local []uint64, tb time.Time, ev
 			r.Count("svc_delete_shard_of_expired_group", 1)
 		}
 	}
-	_ = sawPrune
 }
 
 // judgeProgress: pre/tb/local are those of the first of K fault-free passes
